@@ -245,7 +245,7 @@ def auth_lines(mech, shape, user, secret, zid):
 
 SHAPES = ['initial', 'challenge', 'cancel', 'bad64-initial', 'bad64', 'empty-initial', 'empty', 'nonutf8-initial', 'nonutf8']
 # after-aborted-*: an earlier LOGIN exchange of the same session was given up after the user name (cancelled / bad base64)
-POSITIONS = ['before-ehlo', 'normal', 'after-success', 'after-success-ehlo', 'in-transaction', 'after-aborted-cancel', 'after-aborted-bad64', 'after-aborted-plain']
+POSITIONS = ['before-ehlo', 'after-helo', 'normal', 'after-success', 'after-success-ehlo', 'in-transaction', 'after-aborted-cancel', 'after-aborted-bad64', 'after-aborted-plain']
 
 
 def auth_cases(tier):
@@ -268,11 +268,28 @@ def auth_cases(tier):
                                 yield (tlsmode, pos, mech, shape, u, s, z, verdict)
                     else:
                         yield (tlsmode, pos, mech, shape, 'user', 'pw', '', 'accept')
+                    if mech in ('PLAIN', 'LOGIN', 'CRAM-MD5') and shape in ('initial', 'challenge') and kind == 'valid':
+                        for how in ('lower', 'mixed'):
+                            yield (tlsmode, pos, mech, shape, 'user', 'pw', '', 'accept', how)
+
+
+def recase(lines, how):
+    """the AUTH verb and the mechanism name are case-insensitive: 'lower' / 'mixed' spellings of the first line"""
+    if how == 'upper' or not lines:
+        return lines
+    first = lines[0]
+    parts = first.rstrip(b'\r\n').split(b' ', 2)
+    if how == 'lower':
+        parts[:2] = [p.lower() for p in parts[:2]]
+    else:
+        parts[:2] = [bytes(c ^ 0x20 if (i % 2 and 65 <= c <= 90) else c for i, c in enumerate(p)) for p in parts[:2]]
+    return [b' '.join(parts) + b'\r\n'] + list(lines[1:])
 
 
 def run_a(case):
-    tlsmode, pos, mech, shape, user, secret, zid, verdict = case
+    tlsmode, pos, mech, shape, user, secret, zid, verdict = case[:8]
     lines, kind = auth_lines(mech, shape, user, secret, zid)
+    lines = recase(lines, case[8] if len(case) > 8 else 'upper')
     v_auth = ('AUTH', verdict) if verdict != 'accept' else None
     body, verdicts = [], []
 
@@ -280,7 +297,9 @@ def run_a(case):
         body.append(ev)
         verdicts.append(v)
 
-    if pos != 'before-ehlo':
+    if pos == 'after-helo':
+        add(b'HELO c\r\n')               # a plain SMTP greeting: no extensions, so no AUTH either
+    elif pos != 'before-ehlo':
         add(EHLO)
     if pos in ('after-success', 'after-success-ehlo'):
         d = hmac.new(b'pw0', MSGID.encode('ascii'), hashlib.md5).hexdigest()
@@ -326,7 +345,7 @@ def run_a(case):
 
 
 def check_a(case, res):
-    tlsmode, pos, mech, shape, user, secret, zid, verdict = case
+    tlsmode, pos, mech, shape, user, secret, zid, verdict = case[:8]
     r, off, ai, pi, kind = run_a(case)
     res.evaluations += 1
     viol = []
@@ -357,7 +376,7 @@ def check_a(case, res):
     success = '235' in all_codes
     plaintext = mech in ('PLAIN', 'LOGIN')
     must_refuse = None
-    if pos == 'before-ehlo':
+    if pos in ('before-ehlo', 'after-helo'):
         must_refuse = 'auth-before-ehlo'
     elif pos in ('after-success', 'after-success-ehlo'):
         must_refuse = 'auth-after-success'
